@@ -47,12 +47,16 @@ def gen_program(rng, max_eq=4, max_lag=3, max_lead=3, allow_funcs=True):
             return nm + _idx(off)
         if r < 0.85:
             nm = rng.choice(PARAMS)
-            note(nm, 0)
-            return '{' + nm + '}'
+            off = rng.choice([0, 0, 0, -1, -max_lag, max_lead])
+            off = max(-max_lag, min(max_lead, off))
+            note(nm, off)
+            return '{' + nm + '}' + _idx(off)
         if r < 0.9:
             nm = rng.choice(ERRS)
-            note(nm, 0)
-            return '<' + nm + '>'
+            off = rng.choice([0, 0, -1, 1, -max_lag, max_lead])  # the deepest lag / furthest lead may sit on an error term only
+            off = max(-max_lag, min(max_lead, off))
+            note(nm, off)
+            return '<' + nm + '>' + _idx(off)
         if allow_const:
             return rng.choice(COEFS)
         nm = rng.choice(EXO)
